@@ -112,10 +112,11 @@ static void corpus_add_reframed(corpus *c){
          for(j=0;j<i;j++){ cpkt *p=&c->p[st->first+j]; if(ref_opus_repacketizer_cat(rp,p->data,p->len)!=OPUS_OK){ ok=0; break; } dur+=p->dur48; }
          if(ok){ len=ref_opus_repacketizer_out(rp,out,sizeof out); if(len>0) corpus_push(c,out,len,s,-i,0,dur,1); }
          ref_opus_repacketizer_destroy(rp); }
-      { cpkt *p=&c->p[st->first]; if (p->len+300<(int)sizeof out){ memcpy(out,p->data,p->len); if(ref_opus_packet_pad(out,p->len,p->len+1)==OPUS_OK) corpus_push(c,out,p->len+1,s,-10,p->enc_range,p->dur48,2);
+      { /* corpus_push may realloc c->p: copy what is needed into locals first */
+        cpkt p0=c->p[st->first]; const cpkt *p=&p0; if (p->len+300<(int)sizeof out){ memcpy(out,p->data,p->len); if(ref_opus_packet_pad(out,p->len,p->len+1)==OPUS_OK) corpus_push(c,out,p->len+1,s,-10,p->enc_range,p->dur48,2);
           memcpy(out,p->data,p->len); if(ref_opus_packet_pad(out,p->len,p->len+258)==OPUS_OK) corpus_push(c,out,p->len+258,s,-11,p->enc_range,p->dur48,2); } }
       { /* extension in padding: id 33 (long, L=1) with 3 payload bytes on frame 0 */
-        cpkt *p=&c->p[st->first]; rfc_pkt m; rfc_parse(p->data,p->len,0,&m);
+        cpkt p1=c->p[st->first]; const cpkt *p=&p1; rfc_pkt m; rfc_parse(p->data,p->len,0,&m);
         if (m.ok && m.count<=2){ const unsigned char *fr[48]; int sz[48],k,len; static const unsigned char ext[]={0x43,0x03,0xAA,0xBB,0xCC};
            for(k=0;k<m.count;k++){ fr[k]=p->data+m.off[k]; sz[k]=m.size[k]; }
            len=rfc_build(out,p->data[0],3,1,m.count,fr,sz,sizeof ext,ext,0); if(len>0) corpus_push(c,out,len,s,-20,p->enc_range,p->dur48,3); } }
